@@ -247,6 +247,7 @@ struct L11 : Listener {
             break; }
         case 12: {  // trailing spaces: standalone Point/Points and Channel/SubFrame
             std::string base = pointNameOf(kk), padded = base + std::string(1 + static_cast<size_t>(kk % 3), ' ');
+            if (kk % 5 == 0) { base = ""; padded = std::string(1 + static_cast<size_t>(kk % 4), ' '); }     // a name made of spaces only trims to the empty name
             tag = "standalone-trailing-spaces";
             ezc3d::DataNS::Points3dNS::Point pt; pt.name(padded); pt.x(1.f);
             ezc3d::DataNS::Points3dNS::Point other; other.name("other");
